@@ -16,6 +16,7 @@ pub uninterp spec fn has_prev(p: GPos) -> bool;
 pub uninterp spec fn prev(p: GPos) -> GPos;
 pub uninterp spec fn pseudo(p: GPos, m: Ply) -> bool;   // m is a consistent (pseudo-legal) move in p
 pub uninterp spec fn legal(p: GPos, m: Ply) -> bool;
+pub uninterp spec fn has_legal(p: GPos) -> bool;      // some move is legal in p
 pub uninterp spec fn turn_of(p: GPos) -> Color;
 pub uninterp spec fn key_of(p: GPos) -> ZKey;
 pub uninterp spec fn in_check_pos(p: GPos, c: Color) -> bool;
@@ -45,6 +46,7 @@ impl Board {
     pub fn get_all_moves(&self) -> (r: Vec<Ply>)
         requires bwf(*self),
         ensures forall|i: int| 0 <= i < r@.len() ==> pseudo(self.pos@, #[trigger] r@[i]),
+                r@.len() <= 256,   // assumed: a position has at most 218 pseudo-legal moves
     { unimplemented!() }
 
     /// quiescence's move list: the pseudo-legal captures
@@ -52,6 +54,16 @@ impl Board {
     pub fn get_capture_moves(&self) -> (r: Vec<Ply>)
         requires bwf(*self),
         ensures forall|i: int| 0 <= i < r@.len() ==> pseudo(self.pos@, #[trigger] r@[i]),
+                r@.len() <= 256,
+    { unimplemented!() }
+
+    /// C01/C02: the legal moves; asking does not change the board
+    #[verifier::external_body]
+    pub fn get_legal_moves(&mut self) -> (r: Vec<Ply>)
+        requires bwf(*old(self)),
+        ensures *final(self) == *old(self),
+                forall|i: int| 0 <= i < r@.len() ==> pseudo(old(self).pos@, #[trigger] r@[i]) && legal(old(self).pos@, r@[i]),
+                r@.len() == 0 ==> !has_legal(old(self).pos@),
     { unimplemented!() }
 
     #[verifier::external_body]
@@ -89,7 +101,7 @@ impl Board {
 /// `running: Arc<AtomicBool>` is modelled by a ghost "halted" bit.  A stop may arrive during any call, so every
 /// &mut self function may turn halted on; nothing in the search ever turns it off (start() is only called by
 /// Search::search before iter_deep).
-pub struct RunFlag { pub flag_down: Ghost<bool>, pub lim: Ghost<bool> }
+pub struct RunFlag { pub flag_down: Ghost<bool>, pub lim: Ghost<bool>, pub bestmoves: Ghost<int>, pub reported: Ghost<Seq<int>> }
 
 pub struct Instant { pub t: Ghost<int> }
 impl Clone for Instant { #[verifier::external_body] fn clone(&self) -> (r: Self) ensures r == *self { unimplemented!() } }
@@ -118,3 +130,15 @@ pub fn print_opaque() { unimplemented!() }
 
 pub assume_specification[ i16::saturating_neg ](a: i16) -> (r: i16)
     ensures r == (if a == -32768 { 32767int } else { -(a as int) });
+
+// Ply::default() (verified verbatim in the board unit); its value is irrelevant to the search contracts
+impl Default for Ply {
+    #[verifier::external_body]
+    fn default() -> Self { unimplemented!() }
+}
+
+pub assume_specification<T: Copy>[ Option::<&T>::copied ](o: Option<&T>) -> (r: Option<T>)
+    ensures r == (match o { Some(x) => Some(*x), None => None::<T> });
+
+pub assume_specification[ <i16 as core::convert::From<u8>>::from ](x: u8) -> (r: i16)
+    ensures r == x as int;
